@@ -454,6 +454,18 @@ impl<'a> Judge<'a> {
 			}
 		}
 		// ---- per-flight postconditions
+		// (first pass: accounts in which a time-to-live expired while the transaction sat in the pool - the wallet gave
+		// it up, released its inputs, and it was mined afterwards: the excluded "cancelled after broadcast" case. A
+		// later payment of such an account may have been built on the released, in truth spent, inputs.)
+		for fl in flights {
+			let mined_at = fl.final_excess.as_ref().and_then(|x| unhex(x)).and_then(|b| chain.get_kernel_height(&grin_util::secp::pedersen::Commitment::from_vec(b), None, None).ok().flatten()).map(|(_, h, _)| h);
+			if let (Some(c), Some(h)) = (fl.ttl_cutoff, mined_at) {
+				if h >= c {
+					self.tainted.insert((fl.payer, fl.src_acct.clone().unwrap_or_else(|| "default".into())));
+					self.tainted.insert((fl.payee, fl.dest_acct.clone().unwrap_or_else(|| "default".into())));
+				}
+			}
+		}
 		for fl in flights {
 			let id = match fl.id {
 				Some(i) => i,
@@ -481,6 +493,11 @@ impl<'a> Judge<'a> {
 			self.rep.distinct(&("flight", cls.clone()));
 			self.rep.count(&format!("threads:flight:{}", if mined_at.is_some() { "mined" } else if fl.cancel_payer_ok || fl.cancel_payee_ok { "cancelled" } else if fl.fin_ok { "finalized-not-posted" } else { "abandoned" }));
 			// (p0) a finalized transaction the node refuses, or that never gets mined, conflicts with another one
+			let payer_tainted = self.tainted.contains(&(fl.payer, fl.src_acct.clone().unwrap_or_else(|| "default".into())));
+			if payer_tainted && (fl.post_err.is_some() || (fl.posted && mined_at.is_none())) {
+				self.rep.count("threads:flight:not-judged(payer-account-gave-up-a-broadcast-transaction)");
+				continue;
+			}
 			if let Some(e) = &fl.post_err {
 				self.viol(&format!("finalized-tx-refused-by-node|{}", fl.kind), &format!("the node refused the finalized transaction of slate {}: {}", id, e), Some(fl), log);
 			}
